@@ -48,14 +48,14 @@ def wf_dist_fail(a, tol):
 
 
 def known_product_rounding(c, ri):
-    """The known finding of C19/C06: an unlabelled product with >= 16 cells rejects its own,
+    """The known finding of C19/C06 (KF1): an unlabelled product with >= 9 cells rejects its own,
     correctly rounded result (sum(b) + u or sum(a) within 64 ulps of 1)."""
     if c.op not in ("prod2", "prod3") or c.fam != "arr" or ri[0] != "PANIC":
         return None
     cells = 1
     for d in c.dims:
         cells *= d
-    if cells < 16:
+    if cells < 9:
         return None
     msg, rej = ri[1], ri[2]
     if rej is None or not ("sum(b) + u" in msg or "sum(a)" in msg):
